@@ -52,14 +52,22 @@ def gen_histories(params, sim=None, seed=0):
     return list(uniq.values()), r
 
 
+UNPICKLABLE = lambda: None       # a legal cell value that sorts fine in memory but cannot be dumped to a chunk file
+import pickle
+DUMP_ERRORS = (pickle.PicklingError, AttributeError, TypeError)
+
+
 def mk_source(N, FailAt):
-    rows = [[KEYS[i % len(KEYS)], i + 1] for i in range(N)]
-    return ProbeTable(['k', 'id'], rows=rows, fail_at=(FailAt or None)), rows
+    """FailAt in 1..N+1: the source raises there; 100 + r: data row r carries an unpicklable cell."""
+    rows = [[KEYS[i % len(KEYS)], i + 1, None] for i in range(N)]
+    if FailAt > 100:
+        rows[FailAt - 101][2] = UNPICKLABLE
+    return ProbeTable(['k', 'id', 'x'], rows=rows, fail_at=(FailAt if 0 < FailAt <= 100 else None)), rows
 
 
 def solo_pass(rows):
     from petl.comparison import Comparable
-    return [('k', 'id')] + [tuple(r) for r in sorted(rows, key=lambda r: Comparable(r[0]))]
+    return [('k', 'id', 'x')] + [tuple(r) for r in sorted(rows, key=lambda r: Comparable(r[0]))]
 
 
 def nfiles(tmp):
@@ -99,6 +107,11 @@ def replay_history(params, hist):
                     its.pop(i, None)
                     if want != -1:
                         return 'step %d: next(it%d) surfaced the source failure, spec item %d' % (n + 1, i, want), None
+                except DUMP_ERRORS as e:
+                    its.pop(i, None)
+                    if not (want == -1 and params['FailAt'] > 100):
+                        return 'step %d: next(it%d) raised %r' % (n + 1, i, e), None
+                    e = None
                 except Exception as e:
                     return 'step %d: next(it%d) raised %r' % (n + 1, i, e), None
             f = nfiles(tmp)
@@ -192,7 +205,7 @@ def record_traces(n, seed):
         N = rng.randrange(0, 7)
         B = rng.randrange(1, 6)
         cache = rng.random() < 0.6
-        fail = rng.choice([0, 0, 0, rng.randrange(1, N + 2)])
+        fail = rng.choice([0, 0, 0, rng.randrange(1, N + 2), (100 + rng.randrange(1, N + 1)) if N else 0])
         params = {'N': N, 'B': B, 'cache': cache, 'FailAt': fail}
         evs = []
         with common.private_tmp() as tmp:
@@ -219,6 +232,9 @@ def record_traces(n, seed):
                         its.pop(i)
                     except InjectedFailure:
                         res = -1
+                        its.pop(i)
+                    except DUMP_ERRORS:
+                        res = -1 if fail > 100 else -2
                         its.pop(i)
                     except Exception:
                         res = -2
@@ -281,10 +297,12 @@ def run(tier, seed):
     configs = [dict(N=2, B=1, cache=True, NIter=2, FailAt=0), dict(N=2, B=2, cache=True, NIter=2, FailAt=0),
                dict(N=2, B=3, cache=True, NIter=2, FailAt=0), dict(N=2, B=1, cache=False, NIter=2, FailAt=0),
                dict(N=2, B=1, cache=True, NIter=2, FailAt=2), dict(N=2, B=1, cache=True, NIter=2, FailAt=3),
-               dict(N=2, B=2, cache=False, NIter=2, FailAt=1)]
+               dict(N=2, B=2, cache=False, NIter=2, FailAt=1), dict(N=2, B=1, cache=True, NIter=2, FailAt=102),
+               dict(N=2, B=2, cache=True, NIter=2, FailAt=101), dict(N=2, B=3, cache=True, NIter=2, FailAt=101)]
     sims = [dict(N=3, B=2, cache=True, NIter=3, FailAt=0), dict(N=4, B=2, cache=False, NIter=3, FailAt=0),
             dict(N=3, B=1, cache=True, NIter=3, FailAt=3), dict(N=3, B=3, cache=True, NIter=3, FailAt=4),
-            dict(N=5, B=2, cache=True, NIter=3, FailAt=0)]
+            dict(N=5, B=2, cache=True, NIter=3, FailAt=0), dict(N=5, B=2, cache=True, NIter=3, FailAt=104),
+            dict(N=4, B=3, cache=False, NIter=3, FailAt=102)]
     total = 0
     for params in configs:
         hs, r = gen_histories(params)
